@@ -91,6 +91,46 @@ def run_density(setup, nprocs, G, perturbed, cplx, policy_seed, warm=None):
     return MPI.run(int(np.prod(nprocs)), body, policy='random', seed=policy_seed)
 
 
+def other_layout_case(chk, setup, G, feq_tab, perturbed, case0):
+    """f in a layout whose last dimension is v but whose first is NOT r (z, r, theta, v): today both kernels refuse it (assert on the
+    layout); if it is ever accepted, the density at (r, theta, z) is still the integral over v minus the equilibrium AT THAT RADIUS"""
+    from mpi4py import MPI
+    from pygyro.model.layout import getLayoutHandler
+    from pygyro.model.grid import Grid
+    from pygyro.poisson.poisson_solver import DensityFinder
+    eta, bs = setup['eta'], setup['bsplines']
+
+    def body():
+        comm = MPI.COMM_WORLD
+        g = Grid(eta, bs, getLayoutHandler(comm, {'zfirst': [2, 0, 1, 3]}, [1, 1], eta), 'zfirst', comm)
+        rho = Grid(eta[:3], bs[:3], getLayoutHandler(comm, {'zfirst_3d': [2, 0, 1]}, [1, 1], eta[:3]), 'zfirst_3d', comm)
+        g._f[:] = np.transpose(G, (2, 0, 1, 3))
+        rho._f[:] = np.nan
+        import copy
+        df = DensityFinder(setup['quad_degree'], bs[3], eta, copy.copy(setup['constants']))
+        try:
+            (df.getPerturbedRho if perturbed else df.getRho)(g, rho)
+        except AssertionError:
+            return None
+        return np.array(rho._f), np.array(df._quad_coeffs)
+    res = MPI.run(1, body)
+    case = dict(case0, layout_of_f=[2, 0, 1, 3], layout_of_rho=[2, 0, 1])
+    if not res.ok:
+        chk.fail('C16:other-layout-crash', 'DensityFinder on a (z, r, theta, v) layout raised: ' + str(res.first_error())[:200], case)
+        return
+    out = res.values()[0]
+    if out is None:
+        chk.count('layout (z, r, theta, v): refused by the layout assert')
+        return
+    got, q = out
+    want = np.einsum('rtzl,l->zrt', G - (feq_tab[:, None, None, :] if perturbed else 0.0), q)
+    scale = np.einsum('rtzl,l->zrt', np.abs(G) + (np.abs(feq_tab)[:, None, None, :] if perturbed else 0.0), np.abs(q)) + 1e-300
+    if got.shape != want.shape or not (np.abs(got - want) <= 1e-10 * scale).all():
+        chk.fail('C16:other-layout', 'the density of an f stored (z, r, theta, v) was accepted and is not the integral over v%s'
+                 % (' minus the equilibrium of the point\'s own radius' if perturbed else ''), case)
+    chk.count('layout (z, r, theta, v): accepted and compared')
+
+
 def exact_tools(setup):
     """exact (fractions) interpolation-then-integration functional of the v spline: row vector W with
     integral(interpolant(u)) = W . u, from the exact collocation matrix and the exact basis integrals"""
@@ -148,6 +188,9 @@ def one_setup(chk, drv, it, stats):
         consts = {'CTi': rng.uniform(0.6, 1.4), 'kTi': rng.uniform(0.05, 0.4), 'deltaRTi': rng.uniform(0.8, 3.0),
                   'CTe': rng.uniform(0.6, 1.4), 'kTe': rng.uniform(0.05, 0.4), 'deltaRTe': rng.uniform(0.8, 3.0),
                   'kN0': rng.uniform(0.02, 0.1), 'deltaRN0': rng.uniform(1.5, 4.0)}
+    if it % 3 == 1:
+        # the centre of the radial profiles is a constant of its own (a parameter file may give it): not the middle of the radial grid
+        consts = dict(consts, rp=[3.1, 5.0, 10.4][it // 3 % 3])
     # v grids: equidistant, or graded towards one end (asymmetric); (periodic v spaces: the weights are C09's subject, the exact
     # oracle here is written for clamped spaces)
     vkind = rng.choice(['uniform', 'uniform', 'graded', 'graded'])
@@ -190,6 +233,8 @@ def one_setup(chk, drv, it, stats):
     grids = proc_grids(chk.n(6, 6), nr, nz)
     case0 = {'npts': [nr, nth, nz, nv], 'vdeg': vdeg, 'uniform_flag': uniform_flag, 'perturbed': perturbed, 'constants': consts, 'v_grid': vkind,
              'complex_rho': cplx, 'kind': kind, 'quad_degree': setup['quad_degree']}
+    if it % 4 == 2:
+        other_layout_case(chk, setup, np.real(G) if np.iscomplexobj(G) else G, feq_tab, perturbed or it % 8 == 2, case0)
     serial = None
     # exact integral at every global point (oracle)
     exact = np.empty((nr, nz, nth), dtype=object)
